@@ -101,6 +101,19 @@ def record_traces(n: int, length: int, seed: int, kinds: List[Tuple[str, int]]) 
     specs = []
     for t in range(n):
         (kind, cap) = kinds[t % len(kinds)]
+        if kind.endswith("@2"):
+            # two live store objects over the same directories, used in strict alternation by a driver that
+            # keeps re-committing two paths to two keys and asking where they point
+            paths = rnd.sample(TRACE_PATHS[:8], 2)
+            pmap = {1: paths[0], 2: paths[1]}
+            ops = [("store", "k1"), ("store", "k2"), ("store", "k1"), ("store", "k2")]
+            for _ in range(length):
+                if rnd.random() < 0.6:
+                    ops.append(("sync", [[rnd.choice([1, 2]), rnd.choice(["k1", "k2"])]]))
+                else:
+                    ops.append(("fetch_paths", [rnd.choice([1, 2])]))
+            specs.append({"kind": kind, "cap": cap, "keys": keys, "none_keys": none_keys, "paths": pmap, "ops": ops})
+            continue
         k = rnd.randint(3, 5)
         cand = [p for p in TRACE_PATHS]
         rnd.shuffle(cand)
@@ -138,7 +151,11 @@ def record_traces(n: int, length: int, seed: int, kinds: List[Tuple[str, int]]) 
 def _trace_task(a) -> Dict[str, Any]:
     (i, s, base) = a
     root = os.path.join(base, "t%d" % i)
-    r = storedrv.Runner(s["kind"], root, s["cap"], s["keys"], s["none_keys"], s["paths"])
+    two = s["kind"].endswith("@2")
+    r = storedrv.Runner(s["kind"][:-2] if two else s["kind"], root, s["cap"], s["keys"], s["none_keys"], s["paths"],
+                        handles=2 if two else 1)
+    if two:
+        r.rotation = "alternate"
     events = []
     try:
         for (op, arg) in s["ops"]:
@@ -165,7 +182,7 @@ def _trace_task(a) -> Dict[str, Any]:
             events.append(ev)
     finally:
         r.close()
-    return {"kind": s["kind"], "cap": s["cap"], "keys": s["keys"], "none_keys": s["none_keys"],
+    return {"kind": "local" if two else s["kind"], "label": s["kind"], "cap": s["cap"], "keys": s["keys"], "none_keys": s["none_keys"],
             "npaths": len(s["paths"]), "paths": {str(k): v for (k, v) in s["paths"].items()},
             "dotted": sorted(k for (k, v) in s["paths"].items() if v in DOTTED),
             "events": events}
@@ -286,7 +303,7 @@ def run_c08(tier: str) -> int:
     # code -> spec
     ntr = 240 if tier == "quick" else 3000
     traces = record_traces(ntr, 25 if tier == "quick" else 40, seed,
-                           [("local", 0), ("memory", 0), ("local", 2), ("memory", 3)])
+                           [("local", 0), ("memory", 0), ("local", 2), ("memory", 3), ("local@2", 0), ("local@2", 2)])
     # binding self-test: copies of recorded traces with ONE recorded answer altered must be rejected
     corrupted = corrupt_traces(traces, 6)
     (tr, rejected) = validate_traces(traces + corrupted)
@@ -299,7 +316,7 @@ def run_c08(tier: str) -> int:
     for rj in rejected:
         t = rj["trace"]
         ev = rj["event"] or {}
-        sname = t["kind"] + ("+lru%d" % t["cap"] if t["cap"] else "")
+        sname = t.get("label", t["kind"]).replace("@2", "-two-handles") + ("+lru%d" % t["cap"] if t["cap"] else "")
         what = "escape" if "outside" in rj["clause"] else (ev.get("op") or "?")
         dotted = "dotted" if ev.get("dotted") else "regular"
         rep.violation("C08|%s|trace|%s|%s|%s" % (sname, what, rj["clause"].replace(" ", "_"), dotted),
